@@ -48,7 +48,7 @@ Definition rpl nS nA P R av ab ini g eps ord tol h ops solI VI :=
   @replay_check Q NumQ (mk_mdp nS nA P R av ab ini g) eps (ordf ord) tol h ops solI VI.
 Definition rdiag nS nA P R av ab ini g eps ord tol h ops :=
   @replay_diag Q NumQ (mk_mdp nS nA P R av ab ini g) eps (ordf ord) tol 0%nat
-     (@init_state Q NumQ (mk_mdp nS nA P R av ab ini g) h) ops.
+     (init_state (mk_mdp nS nA P R av ab ini g) h) ops.
 (* prediction of every _check_solved call: state before the call is reached by running the
    machine on the preceding operations; returns the list of (predicted = logged) booleans *)
 Fixpoint pred_loop (m : mdp Q) (epsm epsl : Q) ord supp (st : @lst Q)
@@ -71,7 +71,7 @@ Fixpoint pred_loop (m : mdp Q) (epsm epsl : Q) ord supp (st : @lst Q)
   end.
 Definition prd nS nA P R av ab ini g epsm epsl ord supp h calls :=
   let m := mk_mdp nS nA P R av ab ini g in
-  pred_loop m epsm epsl (ordf ord) (suppf supp) (@init_state Q NumQ m h) calls.
+  pred_loop m epsm epsl (ordf ord) (suppf supp) (init_state m h) calls.
 """
 
 CLAUSES = ["lr_wfb", "c_initsolved", "c_solved", "c_greedy", "c_N", "c_vpi", "c_vstar", "c_w", "c_upper",
